@@ -9,4 +9,5 @@ for pid in "$@"; do
   grep -E "^violation:|^tie broken:" /tmp/seed_err.txt | head -2
 done
 git -C /repo checkout -- .
+python3 -c "import sys; sys.path.insert(0,'lib'); import vlib; vlib.build_harness(); vlib.build_samedec()" >/dev/null 2>&1
 rm -rf evidence && cp -r /tmp/evidence_saved evidence
